@@ -259,6 +259,19 @@ def run(chk):
                 files, desc, resolve = c
                 sc.add(sid, files, twin=base, meta={"cuts": desc, "resolve": resolve, "main_link": rng.random() < 0.25,
                                                      "one_loader": v % 2 == 1})
+            if b < 3:
+                # "to any include depth": a fragment reached through a chain of thirteen resources, each of which
+                # only passes on to the next (alternating between the directory, a subdirectory and back)
+                rs = balanced_ranges(lines)
+                if rs:
+                    i, j = rng.choice(rs)
+                    chain = {"d/main.conf": lines[:i] + ["%include c1.conf"] + lines[j:]}
+                    for k in range(1, 13):
+                        here = "d/c%d.conf" % k if k % 2 else "d/sub/c%d.conf" % k
+                        nxt = ("sub/c%d.conf" % (k + 1)) if k % 2 else ("../c%d.conf" % (k + 1))
+                        chain[here] = ["# level %d" % k, "%include " + nxt]
+                    chain["d/c13.conf"] = lines[i:j]
+                    sc.add(sid, chain, twin=base, meta={"cuts": "chain of 13", "one_loader": b == 1})
             di = double_include(rng, lines)
             if di is not None:
                 b2 = sc.add(sid, {"d/main.conf": di[0]}, meta={"nontrivial": False})
